@@ -10,9 +10,9 @@ CONSTANTS
   Life <- Life86
   Flaky = {1}
   AnnBy <- AnnAll
-  BadFrom = {1, 2}
+  BadFrom = {1}
   MaxAtt = 4
-  MaxHist = 11
+  MaxHist = 10
   ReannounceLeak = FALSE
 INVARIANTS TypeOK C24_Limit C24_InflightZero C24_Backoff C24_Dropped D_CounterIsInflight
 VIEW View
